@@ -307,6 +307,17 @@ PLAN_VMSA = e1prop.Plan('C19', UNPRIV_VMSA_ROWS, cfgs=('v7-vmsa', 'v6-vmsa'), tw
                         nontrivial=lambda res: res.status == 'abort' or e1prop.default_nontrivial(res))
 
 
+def shard_ld_unpriv(seed, count):
+    """unprivileged accesses through generated long-descriptor tables (multi-level walks with hierarchical APTable / AP[1] restrictions): C15's cell with the
+    access always unprivileged"""
+    from vf.props import c15
+    acc = Acc()
+    rng = random.Random(seed)
+    for _ in range(count):
+        c15.ld_cell(acc, rng, rng.random() < 0.7, prop='C19', unpriv_only=True)
+    return acc
+
+
 def run(ctx):
     ctx.rule = ('CPSR.M = User: every 16-bit Thumb halfword in each IT position (exhaustive), constructed words of every instruction that tries to '
                 'touch privileged state (MSR/CPS/SETEND/RFE/SRS/LDM^/STM^/SUBS PC,LR/ERET/SMC/SVC/MCR../LDRT..), random ARM and 32-bit Thumb words, one witness + members per joint decoder region (Thumb-32; ARM too in thorough), '
@@ -333,6 +344,7 @@ def run(ctx):
         tasks.append((shard_programs, (c, ctx.shard_seed(k), ctx.n(800, 15000))))
         k += 1
     tasks += [(shard_unpriv, (ctx.shard_seed(k + i), ctx.n(600, 10000))) for i in range(4)]
+    tasks += [(shard_ld_unpriv, (ctx.shard_seed(k + 30 + i), ctx.n(250, 5000))) for i in range(4)]
     tasks += [(e1prop.shard, ('vf.props.c19:PLAN_VMSA', ctx.shard_seed(k + 10 + i), ctx.n(150, 3000))) for i in range(8)]
     from vf.props import c07
     c07.SPEC32.compute_joint()
@@ -349,6 +361,9 @@ def _dispatch(fn, args):
 
 
 def replay(case, bucket=None):
+    if case.get('ld'):
+        from vf.props import c15
+        return c15.replay(case, bucket)
     if 'unpriv_check' in case:
         uc = case['unpriv_check']
         cpu = e1.build(case)
